@@ -10,13 +10,20 @@ A case:  {"id", "fn", "args": [arg…], "group": "emul:<name>" | "native", "unor
          {"r": [values…], "t": "<type>"}   a MULTI-ROW column: the case is an aggregation over one group holding
                                            exactly these rows; optional "pre" (function applied to the column
                                            before aggregating) and "post" (function applied to the aggregate)
+                                           and "xargs" (plain Python arguments that follow the column in the
+                                           aggregate's call, e.g. first(v, True))
   fn "getItem" is Column.getItem:  col(args[0]).getItem(args[1])
+  fn "prog"    is a COLUMN PROGRAM (no args): "prog" = a list of let-bindings, each deriving a Column from earlier
+               bindings of the same program (shared objects, as a user who keeps a partially built column in a
+               variable has them); every binding is evaluated AFTER all of them were built, over the rows "rows"
+               of an int column x.  Value = [[value of binding b on row r, r in rows], b in bindings].
 Dates travel as {"date": "YYYY-MM-DD"}; timestamps as {"ts": "YYYY-MM-DD HH:MM:SS"}.
 """
 from __future__ import annotations
 
 import datetime
 import decimal
+import json
 import math
 import random
 import typing as t
@@ -44,8 +51,10 @@ def E(fn: str, *args: dict) -> dict:
     return {"e": {"fn": fn, "args": list(args)}}
 
 
-def agg_case(group: str, fn: str, rows: list, ty: str, pre: t.Optional[str] = None, post: t.Optional[str] = None, unordered: bool = False) -> dict:
+def agg_case(group: str, fn: str, rows: list, ty: str, pre: t.Optional[str] = None, post: t.Optional[str] = None, unordered: bool = False, xargs: t.Optional[list] = None) -> dict:
     c = {"fn": fn, "args": [{"r": rows, "t": ty}], "group": group, "unordered": unordered, "tag": "agg"}
+    if xargs:
+        c["xargs"] = list(xargs)
     if pre:
         c["pre"] = pre
     if post:
@@ -288,6 +297,260 @@ def composition_cases() -> t.List[dict]:
     return out
 
 
+def lev(a: str, b: str) -> int:
+    """Levenshtein distance (the harness's own, to place thresholds at / next to the distance)"""
+    prev = list(range(len(b) + 1))
+    for i, ca in enumerate(a, 1):
+        cur = [i]
+        for j, cb in enumerate(b, 1):
+            cur.append(min(prev[j] + 1, cur[j - 1] + 1, prev[j - 1] + (ca != cb)))
+        prev = cur
+    return prev[-1]
+
+
+LEV_PAIRS = [("kitten", "sitting"), ("spark", "spark"), ("flaw", "lawn"), ("", "abc"), ("abc", ""), ("a", "b"), ("", ""), ("sunday", "saturday"), ("ab", "ba"), ("hello world", "hallo")]
+
+
+def levenshtein_cases() -> t.List[dict]:
+    """levenshtein(l, r, threshold): sqlframe wraps the engine's distance in its own CASE.  For every pair the
+    thresholds 0, d-1, d, d+1 and a large one (d = the distance): the boundary and both sides of it"""
+    out: t.List[dict] = []
+    for a, b in LEV_PAIRS:
+        d = lev(a, b)
+        out.append(case("emul:levenshtein", "levenshtein", C(a, "string"), C(b, "string")))
+        for th in sorted({0, d - 1, d, d + 1, 100} - {-1}):
+            out.append(case("emul:levenshtein", "levenshtein", C(a, "string"), C(b, "string"), P(th)))
+    return out
+
+
+FMT_ARGS = [("ab", "string", "s"), (7, "int", "d"), ("cd", "string", "s"), (-42, "int", "d"), ("", "string", "s")]
+
+
+def fmt_of(segs: t.List[str], kinds: t.List[str]) -> str:
+    return "".join(s + ("%" + kinds[i] if i < len(kinds) else "") for i, s in enumerate(segs))
+
+
+def format_string_cases() -> t.List[dict]:
+    """format_string(fmt, *cols) on DuckDB is sqlframe's own splice of text segments and columns.  Every
+    arrangement of EMPTY / non-empty segments around 1, 2 and 3 placeholders (adjacent placeholders, a
+    placeholder first, a placeholder last), %s and %d, each argument kind; then formats outside the plain
+    %s/%d family (a literal %%, no placeholder at all, a width)"""
+    out: t.List[dict] = []
+    G = "emul:format_string"
+    for n in (1, 2, 3):
+        for mask in range(2 ** (n + 1)):
+            segs = [["", "k=", "-", ";", ": "][(i + mask) % 5] if (mask >> i) & 1 else "" for i in range(n + 1)]
+            for shift in (0, 1):
+                args = [FMT_ARGS[(i + shift) % len(FMT_ARGS)] for i in range(n)]
+                out.append(case(G, "format_string", P(fmt_of(segs, [a[2] for a in args])), *[C(a[0], a[1]) for a in args]))
+    out.append(case(G, "format_string", P("%s"), C("", "string")))
+    out.append(case(G, "format_string", P("%s%s"), C("ab", "string"), C("ab", "string")))
+    out.append(case(G, "format_string", P("%d%d"), C(1, "int"), C(23, "int")))
+    out.append(case(G, "format_string", P("a b  c%s "), C("x y", "string")))
+    # outside the plain family
+    out.append(case(G, "format_string", P("100%% of %s"), C("ab", "string"), tag="fmt-other"))
+    out.append(case(G, "format_string", P("%s%%"), C("ab", "string"), tag="fmt-other"))
+    out.append(case(G, "format_string", P("hello"), tag="fmt-other"))
+    out.append(case(G, "format_string", P("%5d|"), C(7, "int"), tag="fmt-other"))
+    out.append(case(G, "format_string", P("%05d"), C(7, "int"), tag="fmt-other"))
+    out.append(case(G, "format_string", P("%.2f"), C(1.5, "double"), tag="fmt-other"))
+    out.append(case(G, "format_string", P("%s and %s"), C(1.5, "double"), C(True, "boolean"), tag="fmt-other"))
+    return out
+
+
+def coverage_cases() -> t.List[dict]:
+    """(a) every DuckDB emulation of the dispatch table that had no case at all, (b) the OPTIONAL-argument forms
+    of functions (each optional parameter given, where the plain form was the only one exercised)"""
+    out: t.List[dict] = []
+    N = "native"
+    s = "hello world"
+    ts1, ts2 = "2024-01-31 13:45:09", "1999-12-31 23:59:59"
+    out.append(case("emul:e", "e"))
+    for v in ["hello", "ÄÖü", ""]:
+        out.append(case("emul:decode", "decode", E("encode", C(v, "string"), P("UTF-8")), P("UTF-8")))
+    for xs, v in [([1, 2, 3], 4), ([], 1), ([5, 5], 5)]:
+        out.append(case("emul:array_append", "array_append", C(xs, "array<int>"), P(v)))
+        out.append(case("emul:array_remove", "array_remove", C(xs, "array<int>"), P(v)))
+        out.append(case("emul:array_remove", "array_remove", C(xs, "array<int>"), P(5)))
+    for a, b in [([1, 2], [2, 3]), ([1, 2], [3, 4]), ([], [1]), ([1, 1], [1])]:
+        out.append(case("emul:arrays_overlap", "arrays_overlap", C(a, "array<int>"), C(b, "array<int>")))
+        out.append(case("emul:array_union", "array_union", C(a, "array<int>"), C(b, "array<int>"), unordered=True))
+    for v, pat in [(s, "wor"), (s, "^h.*d$"), (s, "^world"), ("", "a*"), ("abc", "[0-9]")]:
+        out.append(case("emul:regexp", "regexp", C(v, "string"), L(pat)))
+    for v, suf in [(s, "world"), (s, "hello"), (s, ""), ("", "x"), ("a_b", "_b"), ("axb", "_b")]:
+        out.append(case("emul:endswith", "endswith", C(v, "string"), L(suf)))
+    for v, search in [(s, "l"), (s, "world"), (s, "zz"), ("", "a")]:
+        out.append(case("emul:replace", "replace", C(v, "string"), L(search)))
+        out.append(case("emul:replace", "replace", C(v, "string"), L(search), L("<>")))
+    for x, y in [(1.0, 7.0), (float("nan"), 7.0), (0.0, float("nan")), (float("nan"), float("nan"))]:
+        out.append(case("emul:nanvl", "nanvl", C(x, "double"), C(y, "double")))
+    for ts in (ts1, ts2, "1970-01-01 00:00:00", "2024-02-29 00:00:01"):
+        out.append(case("emul:unix_millis", "unix_millis", C({"ts": ts}, "timestamp")))
+        out.append(case("emul:unix_micros", "unix_micros", C({"ts": ts}, "timestamp")))
+        out.append(case("emul:to_unix_timestamp", "to_unix_timestamp", C(ts, "string")))
+        out.append(case("emul:to_unix_timestamp", "to_unix_timestamp", C(ts.replace("-", "/"), "string"), L("yyyy/MM/dd HH:mm:ss")))
+        out.append(case("emul:try_to_timestamp", "try_to_timestamp", C(ts, "string"), L("yyyy-MM-dd HH:mm:ss")))
+        out.append(case("emul:to_timestamp", "to_timestamp", C(ts.replace("-", "/"), "string"), P("yyyy/MM/dd HH:mm:ss")))
+        out.append(case("emul:to_timestamp_ntz", "to_timestamp_ntz", C(ts, "string")))
+        out.append(case("emul:to_timestamp_ntz", "to_timestamp_ntz", C(ts.replace("-", "/"), "string"), L("yyyy/MM/dd HH:mm:ss")))
+    out.append(case("emul:try_to_timestamp", "try_to_timestamp", C("not a time", "string"), L("yyyy-MM-dd HH:mm:ss")))
+    for ts in ("2024-01-31 13:45:09.123456", "1969-12-31 23:59:59.500000", "2001-09-09 01:46:40.999"):
+        out.append(case("emul:unix_millis", "unix_millis", C({"ts": ts}, "timestamp")))
+        out.append(case("emul:unix_micros", "unix_micros", C({"ts": ts}, "timestamp")))
+    for k in range(7):
+        out.append(case("emul:dayofweek", "dayofweek", C(D((datetime.date(2024, 2, 26) + datetime.timedelta(days=k)).isoformat()), "date")))
+    for d in ["2024-01-31", "2023-12-31", "2024-02-29", "2021-07-04"]:
+        out.append(case("emul:day", "day", C(d, "string")))
+        out.append(case("emul:dayofweek", "dayofweek", C(d, "string")))
+        out.append(case("emul:last_day", "last_day", C(d, "string")))
+    for v in [s, "a,b,,c", ""]:
+        for lim in (-1, 0, 1, 2, 5):
+            out.append(case("emul:split", "split", C(v, "string"), P(","), P(lim)))
+    for v in ["abc", ""]:
+        for bits in (0, 256):  # DuckDB: other lengths are refused with an explicit error (declared, not a wrong value)
+            out.append(case("emul:sha2", "sha2", C(v, "string"), P(bits)))
+    # first / last / any_value depend on the row order, which a grouped aggregation does not fix: only groups whose
+    # answer is the same for every order (NULLs skipped and one distinct value left, or no mixture at all)
+    for rows in ([None, 5.0, 5.0], [5.0, None], [None, None], [2.0], [3.0, 3.0]):
+        for ign in (True, False):
+            if ign or len({repr(r) for r in rows}) == 1:
+                out.append(agg_case("emul:first", "first", rows, "double", xargs=[ign]))
+                out.append(agg_case("emul:any_value", "any_value", rows, "double", xargs=[ign]))
+                out.append(agg_case("agg", "last", rows, "double", xargs=[ign]))
+    for rows in ([1.0, 2.0, 3.0, 4.0, 5.0], [10.0], [3.0, 1.0, 2.0]):
+        for q in (0.0, 0.5, 1.0):
+            out.append(agg_case("emul:percentile_approx", "percentile_approx", rows, "double", xargs=[q]))
+            out.append(agg_case("emul:percentile_approx", "percentile_approx", rows, "double", xargs=[q, 100]))
+    # optional-argument forms of functions without a DuckDB branch (sqlframe's default body decides what the
+    # optional argument does to the expression)
+    for b, x in [(2.0, 8.0), (10.0, 1000.0), (3.0, 9.0), (8.0, 2.0)]:
+        out.append(case("argorder:log", "log", P(b), C(x, "double")))
+    for x in [2.5, 3.5, -2.5, 0.4, 123.456]:
+        out.append(case(N, "round", C(x, "double")))
+    for v in strs_for_trim():
+        out.append(case(N, "btrim", C(v, "string"), L("x")))
+    for start in (1, 5, 6, 9):
+        out.append(case("argorder:position", "position", L("o"), C(s, "string"), L(start)))
+    out.append(case("argorder:regexp_extract", "regexp_extract", C(s, "string"), P("(\\w+) (\\w+)"), P(1)))
+    out.append(case("argorder:regexp_extract", "regexp_extract", C(s, "string"), P("(\\w+) (\\w+)"), P(0)))
+    for xs in [["a", "b"], ["x"], []]:
+        out.append(case(N, "array_join", C(xs, "array<string>"), P("-"), P("?")))
+    for xs in [[3, 1, 2], [5, 5, 1]]:
+        out.append(case(N, "sort_array", C(xs, "array<int>"), P(True)))
+    for d in ["2024-01-31", "2023-11-15"]:
+        out.append(case(N, "months_between", C(D(d), "date"), C(D("2024-01-01"), "date"), P(False)))
+    out.append(case(N, "substr", C(s, "string"), L(7)))
+    # NULL in -> NULL out (where Spark does), for the emulations: an emulation built from constructs that swallow
+    # NULL (CASE … ELSE, CONCAT, LIST_APPEND, COALESCE) answers something else
+    NI = "emul:null"
+    for args in [
+        ("levenshtein", C(None, "string"), C("a", "string"), P(2)), ("levenshtein", C("abc", "string"), C(None, "string"), P(0)),
+        ("levenshtein", C(None, "string"), C("a", "string")), ("nanvl", C(None, "double"), C(1.0, "double")),
+        ("endswith", C(None, "string"), L("a")), ("unix_millis", C(None, "timestamp")), ("dayofweek", C(None, "date")),
+        ("overlay", C(None, "string"), C("x", "string"), P(1)), ("sequence", C(None, "int"), C(3, "int")),
+        ("date_add", C(None, "date"), P(1)), ("array_min", C(None, "array<int>")), ("replace", C(None, "string"), L("a")),
+        ("regexp", C(None, "string"), L("a")), ("soundex", C(None, "string")),
+        ("arrays_overlap", C(None, "array<int>"), C([1], "array<int>")), ("array_append", C(None, "array<int>"), P(1)),
+        ("array_remove", C(None, "array<int>"), P(1)), ("array_union", C(None, "array<int>"), C([1], "array<int>")),
+        ("try_element_at", C(None, "array<int>"), L(1)), ("getItem", C(None, "array<int>"), P(0)),
+        ("decode", C(None, "binary"), P("UTF-8")), ("last_day", C(None, "date")), ("day", C(None, "date")),
+        ("sha2", C(None, "string"), P(256)), ("base64", C(None, "string")), ("split", C(None, "string"), P(",")),
+        ("regexp_replace", C(None, "string"), P("a"), P("b")), ("to_timestamp", C(None, "string")), ("isnull", C(None, "string")),
+    ]:
+        out.append(case(NI, args[0], *args[1:], tag="null-in"))
+    # functions that had no case at all (dispatch-table emulations first, then plain pass-through names)
+    out.append(case("emul:create_map", "create_map", L("a"), C(1, "int")))
+    out.append(case("emul:create_map", "create_map", L("a"), C(1, "int"), L("b"), C(2, "int")))
+    for x in [2.5, -2.5, 0.0, 7.0]:
+        out.append(case(N, "ceiling", C(x, "double")))
+        out.append(case(N, "sign", C(x, "double")))
+        out.append(case(N, "power", C(x, "double"), C(2.0, "double")))
+        out.append(case(N, "toDegrees", C(x, "double")))
+        out.append(case(N, "toRadians", C(x, "double")))
+    for v in ["hello", "", "ÄÖü"]:
+        out.append(case(N, "character_length", C(v, "string")))
+        out.append(case(N, "regexp_like", C(v, "string"), L("^h")))
+    for n in [0, 1, 5, -1]:
+        out.append(case(N, "bitwiseNOT", C(n, "int")))
+        out.append(case(N, "shiftLeft", C(n, "int"), P(2)))
+        out.append(case(N, "shiftRight", C(n, "int"), P(1)))
+    for d in ["2024-01-31", "2023-12-31"]:
+        out.append(case(N, "date_diff", C(D(d), "date"), C(D("2024-01-01"), "date")))
+        out.append(case(N, "dateadd", C(D(d), "date"), P(3)))
+    for ts in (ts1, ts2):
+        out.append(case(N, "unix_seconds", C({"ts": ts}, "timestamp")))
+        out.append(case(N, "unix_timestamp", C(ts, "string")))
+        out.append(case(N, "unix_timestamp", C(ts.replace("-", "/"), "string"), P("yyyy/MM/dd HH:mm:ss")))
+    for n in [0, 1706708709]:
+        out.append(case(N, "timestamp_seconds", C(n, "bigint")))
+        out.append(case(N, "from_unixtime", C(n, "bigint")))
+        out.append(case(N, "from_unixtime", C(n, "bigint"), P("yyyy/MM/dd")))
+    out.append(case(N, "map_from_arrays", C(["a", "b"], "array<string>"), C([1, 2], "array<int>")))
+    out.append(case(N, "unhex", C("4142", "string")))
+    for rows in ([1.0, 2.0, 2.0, None], [None, None], [3.0]):
+        out.append(agg_case("agg", "count_if", rows, "double", pre="isnull"))
+        out.append(agg_case("agg", "mode", [r for r in rows if r is not None] or [1.0], "double"))
+        out.append(agg_case("agg", "approx_count_distinct", rows, "double"))
+        out.append(agg_case("agg", "approx_count_distinct", rows, "double", xargs=[0.05]))
+        out.append(agg_case("agg", "sumDistinct", rows, "double"))
+        out.append(agg_case("agg", "countDistinct", rows, "double"))
+    out.append(case("emul:levenshtein", "levenshtein", C("abc", "string"), C("abd", "string"), P(-1)))
+    out.append(case("emul:levenshtein", "levenshtein", C("abc", "string"), C("abc", "string"), P(-1)))
+    return out
+
+
+def strs_for_trim() -> t.List[str]:
+    return ["xxhixx", "x", "hello", ""]
+
+
+def _st(op: str, on: t.Optional[int] = None, **kw: t.Any) -> dict:
+    d = {"op": op}
+    if on is not None:
+        d["on"] = on
+    d.update(kw)
+    return d
+
+
+def prog_case(prog: t.List[dict], rows: t.Optional[list] = None) -> dict:
+    return {"fn": "prog", "args": [], "prog": prog, "rows": list(PROG_ROWS if rows is None else rows), "group": "emul:column_sharing", "unordered": False, "tag": "prog"}
+
+
+def prog_cases() -> t.List[dict]:
+    """one partially built column kept in a variable and used more than once: every (derivation, later derivation)
+    pair over a shared prefix, prefixes of length 1 and 2, plus single fluent chains"""
+    out: t.List[dict] = []
+    pos, neg = [">", 0], ["<", 0]
+    # fluent chains (no sharing): the everyday use
+    out.append(prog_case([_st("start", cond=pos, val=1), _st("when", 0, cond=neg, val=-1), _st("otherwise", 1, val=0)]))
+    out.append(prog_case([_st("start", cond=[">=", 2], val=20), _st("when", 0, cond=[">=", 0], val=10), _st("when", 1, cond=["==", -1], val=-10)]))
+    # a shared prefix `base`, two derivations from it
+    derivs = [
+        lambda on: _st("when", on, cond=neg, val=-1),
+        lambda on: _st("when", on, cond=["<=", -2], val=-2),
+        lambda on: _st("otherwise", on, val=9),
+        lambda on: _st("otherwise", on, val=-9),
+        lambda on: _st("neg", on),
+        lambda on: _st("add", on, k=3),
+        lambda on: _st("abs", on),
+        lambda on: _st("alias", on, name="n"),
+        lambda on: _st("cast", on),
+        lambda on: _st("coalesce", on, k=7),
+        lambda on: _st("isNull", on),
+    ]
+    for i, d1 in enumerate(derivs):
+        for j, d2 in enumerate(derivs):
+            if i == j or (i > 1 and j > 1 and (i + j) % 3):
+                continue  # every pair that involves when(); a third of the others
+            out.append(prog_case([_st("start", cond=pos, val=1), d1(0), d2(0)]))
+    # prefix of length 2, three uses; a chain continued from a derived chain while the prefix is used again
+    out.append(prog_case([_st("start", cond=[">=", 5], val=2), _st("when", 0, cond=[">=", 1], val=1), _st("otherwise", 1, val=0), _st("when", 1, cond=["==", 0], val=5), _st("otherwise", 1, val=-1), _st("otherwise", 3, val=-3)]))
+    out.append(prog_case([_st("start", cond=[">=", 5], val=2), _st("otherwise", 0, val=0), _st("when", 0, cond=[">=", 0], val=1), _st("otherwise", 2, val=0), _st("otherwise", 0, val=-1)]))
+    out.append(prog_case([_st("start", cond=pos, val=1), _st("when", 0, cond=neg, val=-1), _st("when", 0, cond=["==", 0], val=0), _st("when", 1, cond=["==", 0], val=100), _st("otherwise", 0, val=50), _st("neg", 0)]))
+    for c in out:
+        assert prog_valid(c["prog"]), c
+    return out
+
+
 SOUNDEX_NAMES = [
     "Ashcraft", "Ashcroft", "Tymczak", "Pfister", "Honeyman", "Robert", "Rupert", "Rubin", "Schwarz", "Sawhney", "Lowhill",
     "Wheaton", "Burroughs", "Burrows", "Chwhs", "bhp", "BWF", "Schschs", "kHq", "dwt", "mhn", "Lhl", "rwr", "Jackson", "Lloyd",
@@ -302,7 +565,9 @@ def soundex_cases() -> t.List[dict]:
 
 
 def all_cases() -> t.List[dict]:
+    # new families are APPENDED (ids are positional: earlier ids, and their recorded Spark values, stay valid)
     cs = emulation_cases() + native_cases() + aggregate_cases() + composition_cases() + soundex_cases()
+    cs += levenshtein_cases() + format_string_cases() + coverage_cases() + prog_cases()
     for i, c in enumerate(cs):
         c["id"] = f"{i}:{c['fn']}"
     return cs
@@ -333,9 +598,69 @@ def random_name(rng: random.Random) -> str:
     return s.upper() if rng.random() < 0.15 else (s.capitalize() if rng.random() < 0.5 else s)
 
 
+def random_edit(rng: random.Random, a: str) -> str:
+    s = list(a)
+    for _ in range(rng.randint(0, 3)):
+        r = rng.random()
+        if r < 0.34 and s:
+            del s[rng.randrange(len(s))]
+        elif r < 0.67:
+            s.insert(rng.randint(0, len(s)), rng.choice("abcd"))
+        elif s:
+            s[rng.randrange(len(s))] = rng.choice("abcd")
+    return "".join(s)
+
+
+def random_format_case(rng: random.Random) -> dict:
+    """text segments (half of them EMPTY) around 1 … 4 plain placeholders"""
+    n = rng.randint(1, 4)
+    segs = [rng.choice(["", "", "", "a", "k=", " ", "-", ": ", ";", "x y", "%%"]) if rng.random() < 0.08 else rng.choice(["", "", "a", "k=", " ", "-", ": ", ";", "x y"]) for _ in range(n + 1)]
+    args = []
+    for _ in range(n):
+        if rng.random() < 0.5:
+            args.append((rng.choice(["ab", "cd", "", "x", "hello world", "7"]), "string", "s"))
+        else:
+            args.append((rng.choice([0, 7, -42, 123456, 1]), "int", "d"))
+    c = case("emul:format_string", "format_string", P(fmt_of(segs, [a[2] for a in args])), *[C(a[0], a[1]) for a in args])
+    if "%%" in segs:
+        c["tag"] = "fmt-other"
+    return c
+
+
+def random_prog(rng: random.Random) -> t.List[dict]:
+    """a few CASE prefixes, each reused by several later steps (the sharing a script with variables has)"""
+    prog: t.List[dict] = [_st("start", cond=[rng.choice(CMPS), rng.randint(-3, 3)], val=rng.randint(-9, 9))]
+    kinds = ["open"]
+    for _ in range(rng.randint(2, 7)):
+        opens = [j for j, k in enumerate(kinds) if k == "open"]
+        nonbool = [j for j, k in enumerate(kinds) if k != "bool"]
+        r = rng.random()
+        if r < 0.1:
+            prog.append(_st("start", cond=[rng.choice(CMPS), rng.randint(-3, 3)], val=rng.randint(-9, 9)))
+            kinds.append("open")
+        elif r < 0.5 and opens:
+            # prefer a prefix that was used before: that is where a write into the receiver shows
+            used = [st["on"] for st in prog if st.get("on") is not None and kinds[st["on"]] == "open"]
+            on = rng.choice(used) if used and rng.random() < 0.6 else rng.choice(opens)
+            prog.append(_st("when", on, cond=[rng.choice(CMPS), rng.randint(-3, 3)], val=rng.randint(-9, 9)))
+            kinds.append("open")
+        elif r < 0.75 and opens:
+            prog.append(_st("otherwise", rng.choice(opens), val=rng.randint(-9, 9)))
+            kinds.append("closed")
+        else:
+            op = rng.choice(UNARY_OPS)
+            on = rng.choice(nonbool)
+            kw = {"k": rng.randint(-4, 4)} if op in ("add", "mul", "coalesce") else ({"name": "n"} if op == "alias" else {})
+            prog.append(_st(op, on, **kw))
+            kinds.append("bool" if op == "isNull" else "expr")
+    assert prog_valid(prog), prog
+    return prog
+
+
 def random_emulation_cases(rng: random.Random, n: int) -> t.List[dict]:
     out: t.List[dict] = []
-    kinds = ["soundex", "soundex", "factorial", "element_at", "try_element_at", "getItem", "slice", "array_position", "sequence", "rint", "overlay", "date_add", "date_sub", "array_min", "array_max"]
+    kinds = ["soundex", "soundex", "factorial", "element_at", "try_element_at", "getItem", "slice", "array_position", "sequence", "rint", "overlay", "date_add", "date_sub", "array_min", "array_max",
+             "levenshtein", "levenshtein", "format_string", "format_string", "prog", "prog", "nanvl", "dayofweek"]
     for i in range(n):
         k = kinds[i % len(kinds)] if i < 4 * len(kinds) else rng.choice(kinds)
         ln = rng.randint(1, 7)
@@ -374,6 +699,22 @@ def random_emulation_cases(rng: random.Random, n: int) -> t.List[dict]:
         elif k in ("date_add", "date_sub"):
             d = datetime.date(2000, 1, 1) + datetime.timedelta(days=rng.randint(0, 12000))
             out.append(case("emul:" + k, k, C(D(d.isoformat()), "date"), P(rng.randint(-800, 800))))
+        elif k == "levenshtein":
+            a = "".join(rng.choice("abcd") for _ in range(rng.randint(0, 7)))
+            b = random_edit(rng, a) if rng.random() < 0.7 else "".join(rng.choice("abcd") for _ in range(rng.randint(0, 7)))
+            d = lev(a, b)
+            th = rng.choice([d, d, d - 1, d + 1, 0, rng.randint(0, 8)])  # at the distance, next to it, anywhere
+            out.append(case("emul:levenshtein", k, C(a, "string"), C(b, "string"), P(max(th, 0))))
+        elif k == "format_string":
+            out.append(random_format_case(rng))
+        elif k == "prog":
+            out.append(prog_case(random_prog(rng)))
+        elif k == "nanvl":
+            vals = [float("nan"), 0.0, 1.5, -2.0, float("nan")]
+            out.append(case("emul:nanvl", k, C(rng.choice(vals), "double"), C(rng.choice(vals), "double")))
+        elif k == "dayofweek":
+            d = datetime.date(1990, 1, 1) + datetime.timedelta(days=rng.randint(0, 20000))
+            out.append(case("emul:dayofweek", k, C(D(d.isoformat()), "date")))
         else:
             out.append(case("emul:" + k, k, C(xs, "array<int>")))
     for i, c in enumerate(out):
@@ -476,6 +817,19 @@ def is_agg(c: dict) -> bool:
     return bool(c["args"]) and "r" in c["args"][0]
 
 
+def is_prog(c: dict) -> bool:
+    return c["fn"] == "prog"
+
+
+def _agg_key(c: dict) -> t.Tuple:
+    return (c.get("pre"), c["fn"], c.get("post"), tuple(json.dumps(a, sort_keys=True) for a in c.get("xargs", [])))
+
+
+def case_key(c: dict) -> str:
+    """what identifies a case (a recorded Spark value is stale when this differs)"""
+    return json.dumps([c["fn"], c["args"], c.get("pre"), c.get("post"), c.get("xargs"), c.get("prog"), c.get("rows")], sort_keys=True)
+
+
 def evaluate_aggs(F: t.Any, create_df: t.Callable[[list, str], t.Any], cases: t.List[dict], idxs: t.List[int], out: t.List[t.Optional[dict]]) -> None:
     """every aggregate case is one group of a (g, v) frame; one groupBy per column type computes every
     (pre, fn, post) combination that occurs for that type"""
@@ -493,15 +847,14 @@ def evaluate_aggs(F: t.Any, create_df: t.Callable[[list, str], t.Any], cases: t.
             continue
         triples: t.Dict[t.Tuple, str] = {}
         for i in ids:
-            key = (cases[i].get("pre"), cases[i]["fn"], cases[i].get("post"))
-            triples.setdefault(key, f"e{len(triples)}")
+            triples.setdefault(_agg_key(cases[i]), f"e{len(triples)}")
 
         def build(key: t.Tuple) -> t.Any:
-            pre, fn, post = key
+            pre, fn, post, xargs = key
             x = F.col("v")
             if pre:
                 x = getattr(F, pre)(x)
-            x = getattr(F, fn)(x)
+            x = getattr(F, fn)(x, *[py_value(json.loads(a)) for a in xargs])
             if post:
                 x = getattr(F, post)(x)
             return x.alias(triples[key])
@@ -514,20 +867,20 @@ def evaluate_aggs(F: t.Any, create_df: t.Callable[[list, str], t.Any], cases: t.
                     live.append(k)
                 except Exception as e:  # noqa
                     for i in ids:
-                        if (cases[i].get("pre"), cases[i]["fn"], cases[i].get("post")) == k:
+                        if _agg_key(cases[i]) == k:
                             out[i] = {"error": f"build: {type(e).__name__}: {str(e)[:160]}"}
             if not live:
                 return
             try:
                 res = {r[0]: r for r in df.groupBy("g").agg(*exprs).collect()}
                 for g, i in enumerate(ids):
-                    k = (cases[i].get("pre"), cases[i]["fn"], cases[i].get("post"))
+                    k = _agg_key(cases[i])
                     if k in live:
                         out[i] = {"value": canon(res[g][1 + live.index(k)])} if g in res else {"error": "group missing from the result"}
             except Exception as e:  # noqa
                 if len(live) == 1:
                     for i in ids:
-                        if (cases[i].get("pre"), cases[i]["fn"], cases[i].get("post")) == live[0]:
+                        if _agg_key(cases[i]) == live[0]:
                             out[i] = {"error": f"run: {type(e).__name__}: {str(e).strip().splitlines()[0][:160] if str(e).strip() else ''}"}
                 else:
                     mid = len(live) // 2
@@ -537,9 +890,113 @@ def evaluate_aggs(F: t.Any, create_df: t.Callable[[list, str], t.Any], cases: t.
         run(list(triples))
 
 
+# ------------------------------------------------------------------------------------------------
+# column programs: let-bindings that derive Columns from earlier bindings (shared objects)
+# ------------------------------------------------------------------------------------------------
+
+PROG_ROWS = [-7, -2, -1, 0, 1, 2, 5, None]
+CMPS = [">", "<", ">=", "<=", "==", "!="]
+UNARY_OPS = ["neg", "add", "abs", "alias", "cast", "coalesce", "isNull", "mul"]
+
+
+def _cond(x: t.Any, cond: list) -> t.Any:
+    op, k = cond
+    return {">": x > k, "<": x < k, ">=": x >= k, "<=": x <= k, "==": x == k, "!=": x != k}[op]
+
+
+def _derive(F: t.Any, st: dict, base: t.Any, x: t.Any) -> t.Any:
+    op = st["op"]
+    if op == "start":
+        return F.when(_cond(x, st["cond"]), F.lit(st["val"]))
+    if op == "when":
+        return base.when(_cond(x, st["cond"]), F.lit(st["val"]))
+    if op == "otherwise":
+        return base.otherwise(F.lit(st["val"]))
+    if op == "neg":
+        return -base
+    if op == "add":
+        return base + st["k"]
+    if op == "mul":
+        return base * st["k"]
+    if op == "abs":
+        return F.abs(base)
+    if op == "alias":
+        return base.alias(st["name"])
+    if op == "cast":
+        return base.cast("bigint")
+    if op == "coalesce":
+        return F.coalesce(base, F.lit(st["k"]))
+    if op == "isNull":
+        return base.isNull()
+    raise ValueError(f"unknown program step {op!r}")
+
+
+def build_prog(F: t.Any, prog: t.List[dict], fresh: bool = False) -> t.List[t.Any]:
+    """the bindings of a program.  shared (default): each step is applied to the OBJECT an earlier step returned,
+    and one `x = col('x')` is used throughout, exactly as the statements of a user's script would;
+    fresh: every binding is rebuilt from scratch, no object is used twice (the meaning PySpark's immutable
+    columns give the program)"""
+    if not fresh:
+        x = F.col("x")
+        out: t.List[t.Any] = []
+        for st in prog:
+            out.append(_derive(F, st, out[st["on"]] if st.get("on") is not None else None, x))
+        return out
+
+    def rebuild(j: int) -> t.Any:
+        st = prog[j]
+        return _derive(F, st, rebuild(st["on"]) if st.get("on") is not None else None, F.col("x"))
+
+    return [rebuild(j) for j in range(len(prog))]
+
+
+def prog_valid(prog: t.List[dict]) -> bool:
+    """when / otherwise are applied to a CASE without ELSE only (PySpark raises otherwise); references point backwards"""
+    kinds: t.List[str] = []
+    for j, st in enumerate(prog):
+        on = st.get("on")
+        if st["op"] == "start":
+            if on is not None:
+                return False
+            kinds.append("open")
+            continue
+        if on is None or not (0 <= on < j):
+            return False
+        if st["op"] in ("when", "otherwise"):
+            if kinds[on] != "open":
+                return False
+            kinds.append("open" if st["op"] == "when" else "closed")
+        else:
+            if kinds[on] == "bool":
+                return False
+            kinds.append("bool" if st["op"] == "isNull" else "expr")
+    return bool(prog)
+
+
+def evaluate_prog(F: t.Any, create_df: t.Callable[[list, str], t.Any], c: dict, fresh: bool = False) -> dict:
+    rows = c["rows"]
+    try:
+        df = create_df([(i, v) for i, v in enumerate(rows)], "id int, x int")
+    except Exception as e:  # noqa
+        return {"error": f"createDataFrame: {type(e).__name__}: {str(e)[:120]}"}
+    try:
+        bs = build_prog(F, c["prog"], fresh=fresh)
+        exprs = [b.alias(f"b{j}") for j, b in enumerate(bs)]
+    except Exception as e:  # noqa
+        return {"error": f"build: {type(e).__name__}: {str(e)[:160]}"}
+    try:
+        res = sorted(df.select(F.col("id"), *exprs).collect(), key=lambda r: r[0])
+        return {"value": [[canon(r[j + 1]) for r in res] for j in range(len(exprs))]}
+    except Exception as e:  # noqa
+        return {"error": f"run: {type(e).__name__}: {str(e).strip().splitlines()[0][:160] if str(e).strip() else ''}"}
+
+
 def evaluate(F: t.Any, create_df: t.Callable[[list, str], t.Any], cases: t.List[dict], batch: int = 60) -> t.List[dict]:
     """returns per case {"value": canon} or {"error": "Type: msg"}"""
     out: t.List[t.Optional[dict]] = [None] * len(cases)
+    for i, c in enumerate(cases):
+        if is_prog(c):
+            out[i] = evaluate_prog(F, create_df, c)
     agg_idx = [i for i, c in enumerate(cases) if is_agg(c)]
     if agg_idx:
         evaluate_aggs(F, create_df, cases, agg_idx, out)
@@ -586,7 +1043,7 @@ def evaluate(F: t.Any, create_df: t.Callable[[list, str], t.Any], cases: t.List[
                 run(live[:mid])
                 run(live[mid:])
 
-    scalar_idx = [i for i, c in enumerate(cases) if not is_agg(c)]
+    scalar_idx = [i for i, c in enumerate(cases) if not is_agg(c) and not is_prog(c)]
     for s in range(0, len(scalar_idx), batch):
         run(scalar_idx[s : s + batch])
     return [o if o is not None else {"error": "not evaluated"} for o in out]
